@@ -43,6 +43,41 @@ PROPS = {
         decided_by_proof="running/waiting query tables over all operation sequences: waiting-queue bound, admission bound through pull, no qid both waiting-object and running-object twice, cancel of a running or waiting query takes effect, delete frees the entry, sends under table locks never block for fresh objects",
         partial="parser totality/termination/determinism for all byte strings (PEG-generated parsers are not modelled), goroutine leaks, timeout goroutine timing, blocking of CancelQuery on a full StateChan with a stalled consumer: NOT decided by proof",
     ),
+    "C20": dict(
+        suites=[("alert", 1200, 20000)],
+        facts={"const.AlertState_Inactive": "0", "const.AlertState_Normal": "1", "const.AlertState_Pending": "2", "const.AlertState_Firing": "3"},
+        trusted_base=["the webhook transport is a parameter of the model (sendOk); the clock is a parameter (minutes): the harness moves time by shifting notification_details.last_sent_time in whole minutes, sub-minute real time only adds to the elapsed time",
+                      "gorm/sqlite (alert, history and notification rows) by correspondence only"],
+        decided_by_proof="alert state machine over all operation sequences (evaluations with any outcome/transport result, any time steps, config-change rows): state = window function of the last N = window/interval outcomes (evaluation rows only; counterexample theorem for a config-change row inside the window, and the exact reset effect of that row), no two delivered notifications closer than cool-down/silence, Normal notification only directly after a Firing one and the first notification is Firing, a Firing evaluation is notified exactly when transport, cool-down and silence allow (in particular on first entering Firing)",
+        partial="the keyed-store/CRUD half of C20 (dashboards, folders, saved queries, index aliases, lookup files, alerts and contact points as keyed stores, restart persistence, tenant isolation): NOT covered by this slice; evaluateLogsQueryConditions / evaluateMetricsQueryConditions result-shape walking (records with a measure column, grouped measures, metric series): only the regenerated scalar comparison evaluateConditions; e-mail and Slack channels, the gocron scheduling itself, sub-minute timing and the exact >= boundary of the cool-down at nanosecond resolution: not decided",
+        assumptions=["notification_details.cooldown_period is set by no product code path (CreateAlert writes 0); the harness sets it with a direct UPDATE to exercise the cool-down logic that the code contains",
+                     "one evaluation at a time per alert (the cron job of an alert does not overlap with itself)"],
+    ),
+    "C01": dict(
+        suites=[("e2e_c01", 120, 3000)],
+        decided_by_proof="(kernel theorems for the TLV/dictionary/seek codecs are being added; see Props/C01.lean)",
+        partial="end-to-end round trip (flatten, type consolidation, block/segment layout, zstd, file offsets) is decided by the differential against the layout-free specification, not by proof",
+    ),
+    "C02": dict(
+        suites=[("e2e_c02", 150, 4000)],
+        decided_by_proof="query time-range tests (record filter = inclusive membership, block filter = range intersection, pruning sound) on kernels regenerated from the source",
+        partial="typed comparison, wildcard/term matching and boolean structure: end-to-end differential against the Lean specification (SigModel/Spec/Logs.lean); Go regexp engine and SPL parser are glue",
+    ),
+    "C03": dict(
+        suites=[("e2e_c03", 150, 4000)],
+        decided_by_proof="range micro-index skip rule is sound for all six operators (signed, unsigned, float) on kernels regenerated from the source; counterexample theorem for != with records lacking the column",
+        partial="bloom keys, dictionary search, PQS, sort index, agile tree, rollups, parallelism: metamorphic end-to-end differential only",
+    ),
+    "C04": dict(
+        suites=[("e2e_c04", 150, 4000)],
+        decided_by_proof="time buckets partition the range (regenerated FindTimeRangeBucket): containment, grid alignment, clamped branches",
+        partial="count/sum/min/max/avg by group: end-to-end differential against the specification; dc and percentiles (HLL / t-digest sketches) are not modelled",
+    ),
+    "C05": dict(
+        suites=[("e2e_c05", 150, 4000)],
+        decided_by_proof="(scheduler/comparator kernel theorems are being added; see Props/C05.lean)",
+        partial="newest-first order, limits and paging: end-to-end differential against the specification",
+    ),
 }
 
 NOT_YET = {}
